@@ -4,8 +4,8 @@
 //   L0  leaf contracts: PSR, set_cc, prefetch_pc, in_alloca, default_mem_ctx, InternalRegister
 //   L1  read_mem / write_mem on the real bodies over a nondeterministic 64K memory
 //   L2  step_in / step / _step_inner / handle_interrupt / call_interrupt / call_subroutine / set_pc /
-//       offset_pc with read_mem / write_mem replaced by their L1 contract (a lazily initialised
-//       symbolic memory `MM` that records every access), compared against the independent ISA
+//       offset_pc with read_mem / write_mem replaced by their L1 contract (a fixed-slot
+//       access table `TAB` filled by the reference and ticked off by the stubs), compared against the independent ISA
 //       reference `isa::step` (written from Patt & Patel App. A; shares no code with sim.rs)
 //   relational harnesses for C12 (real vs virtual traps), C14 (strict vs non-strict),
 //   run loops with `step` replaced by its contract (C13), reset (C30), mmap_internal (C32).
@@ -59,56 +59,68 @@ pub(crate) fn any_scalars() -> Scalars {
 }
 
 // =================================================================================================
-// L1 contract of read_mem / write_mem as an executable abstraction: a lazily initialised symbolic
-// memory.  `init` holds the pre-state value of every address touched so far (allocated on first
-// use with an arbitrary value), `over` the words written during the step.  Every access is logged
-// with the context flags it was made with.
+// L1 contract of read_mem / write_mem as used by the L2 obligations.
+//
+// Memory is "a function from addresses to words".  The ISA reference runs first on the pre-state and
+// writes down, in a table with fixed slots, every access the ISA prescribes for this step: for each
+// read the address, the pre-state word at that address (an arbitrary word, equal for equal
+// addresses) and the privilege the access must carry; for each write the address and the word.
+// The contract stubs that replace `Simulator::read_mem` / `write_mem` in the real step perform the
+// access check and the strictness check of the L1 contract, apply the internal-register side effects
+// of the default map (PSR@xFFFC, MCR@xFFFE), serve reads from that memory function (a word written
+// earlier in the same step wins) and tick off the prescribed accesses.  Any access the ISA does not
+// prescribe is recorded as `extra_*`; the obligations assert that none happened and that every
+// prescribed access was made.  No slot is ever indexed symbolically (SAT-friendly).
 
-pub(crate) const MMN: usize = 6;
 #[derive(Clone, Copy)]
-pub(crate) struct Access { pub write: bool, pub addr: u16, pub data: Word, pub privileged: bool, pub strict: bool, pub track: bool, pub io_effects: bool }
+pub(crate) struct RSlot { pub valid: bool, pub addr: u16, pub pre: Word, pub privileged: bool, pub seen: bool }
 #[derive(Clone, Copy)]
-pub(crate) struct MiniMem {
-    pub init: [(u16, Word); MMN], pub n_init: usize,
-    pub over: [(u16, Word); MMN], pub n_over: usize,
-    pub log: [Option<Access>; 8], pub n_log: usize,
-    pub io_reads: [(u16, Word); 4], pub n_io: usize, pub io_cursor: usize,
-    pub overflow: bool,
+pub(crate) struct WSlot {
+    pub valid: bool, pub addr: u16, pub val: Word,
+    /// an exception entry may push the faulting address or the address after it
+    pub alt: bool,
+    pub privileged: bool, pub seen: bool,
+    /// the word the real step wrote there
+    pub written: Word,
+}
+pub(crate) const NR: usize = 4;
+pub(crate) const NW: usize = 2;
+#[derive(Clone, Copy)]
+pub(crate) struct Table {
+    pub r: [RSlot; NR], pub w: [WSlot; NW],
+    pub extra_read: bool, pub extra_write: bool, pub bad_priv: bool, pub untracked: bool,
+    pub n_reads: u8, pub n_writes: u8,
+    /// "a machine whose memory is all initialized": pre-state words are fully initialized
+    pub all_init: bool,
+    /// words written by the previous step of a two-step obligation (pre-state of this step)
+    pub base: [(bool, u16, Word); NW],
 }
 const W0: Word = Word::verif_zero();
-impl MiniMem {
+const R0S: RSlot = RSlot { valid: false, addr: 0, pre: W0, privileged: false, seen: false };
+const W0S: WSlot = WSlot { valid: false, addr: 0, val: W0, alt: false, privileged: false, seen: false, written: W0 };
+impl Table {
     pub(crate) const fn new() -> Self {
-        MiniMem { init: [(0, W0); MMN], n_init: 0, over: [(0, W0); MMN], n_over: 0, log: [None; 8], n_log: 0,
-                  io_reads: [(0, W0); 4], n_io: 0, io_cursor: 0, overflow: false }
+        Table { r: [R0S; NR], w: [W0S; NW], extra_read: false, extra_write: false, bad_priv: false, untracked: false,
+                n_reads: 0, n_writes: 0, all_init: false, base: [(false, 0, W0); NW] }
     }
-    /// value of a non-I/O cell in the pre-state (allocated on first use)
-    pub(crate) fn initial(&mut self, addr: u16) -> Word {
-        let mut i = 0;
-        while i < MMN { if i < self.n_init && self.init[i].0 == addr { return self.init[i].1; } i += 1; }
-        let w: Word = kani::any();
-        if unsafe { MM_ALL_INIT } { kani::assume(w.is_init()); }
-        if self.n_init < MMN { self.init[self.n_init] = (addr, w); self.n_init += 1; } else { self.overflow = true; }
-        w
+    /// forget what a run ticked off (second run of a relational obligation, same memory function)
+    pub(crate) fn rewind(&mut self) {
+        let mut i = 0; while i < NR { self.r[i].seen = false; i += 1; }
+        let mut j = 0; while j < NW { self.w[j].seen = false; self.w[j].written = W0; j += 1; }
+        self.extra_read = false; self.extra_write = false; self.bad_priv = false; self.untracked = false;
+        self.n_reads = 0; self.n_writes = 0;
     }
-    /// current value of a non-I/O cell
-    pub(crate) fn current(&mut self, addr: u16) -> Word {
-        let mut i = MMN;
-        while i > 0 { i -= 1; if i < self.n_over && self.over[i].0 == addr { return self.over[i].1; } }
-        self.initial(addr)
-    }
-    pub(crate) fn store(&mut self, addr: u16, w: Word) {
-        let mut i = 0;
-        while i < MMN { if i < self.n_over && self.over[i].0 == addr { self.over[i].1 = w; return; } i += 1; }
-        if self.n_over < MMN { self.over[self.n_over] = (addr, w); self.n_over += 1; } else { self.overflow = true; }
-    }
-    pub(crate) fn push_log(&mut self, a: Access) {
-        if self.n_log < 8 { self.log[self.n_log] = Some(a); } else { self.overflow = true; }
-        self.n_log += 1;
+    pub(crate) fn clean(&self) -> bool { !self.extra_read && !self.extra_write && !self.bad_priv && !self.untracked }
+    pub(crate) fn all_seen(&self) -> bool {
+        let mut ok = true;
+        let mut i = 0; while i < NR { if self.r[i].valid && !self.r[i].seen { ok = false; } i += 1; }
+        let mut j = 0; while j < NW { if self.w[j].valid && !self.w[j].seen { ok = false; } j += 1; }
+        ok
     }
 }
-pub(crate) static mut MM: MiniMem = MiniMem::new();
+pub(crate) static mut TAB: Table = Table::new();
 #[allow(static_mut_refs)]
-pub(crate) fn mm() -> &'static mut MiniMem { unsafe { &mut MM } }
+pub(crate) fn tab() -> &'static mut Table { unsafe { &mut TAB } }
 
 fn user_range(addr: u16) -> bool { addr >= 0x3000 && addr < 0xFE00 }
 
@@ -116,31 +128,49 @@ fn user_range(addr: u16) -> bool { addr >= 0x3000 && addr < 0xFE00 }
 /// Discharged against the real body by the L1 obligations `l1_read_*`.
 pub(crate) fn contract_read_mem(s: &mut Simulator, addr: u16, ctx: MemAccessCtx) -> Result<Word, SimErr> {
     if !ctx.privileged && !user_range(addr) { return Err(SimErr::AccessViolation); }
-    let m = mm();
-    let w = if addr < 0xFE00 { m.current(addr) }
-        else if addr == PSR_ADDR { Word::new_init(s.psr.get()) }
-        else {
-            // MCR, a device register, or the mirror cell of an unowned port: any value
-            let w: Word = if addr == MCR_ADDR { Word::new_init((kani::any::<bool>() as u16) << 15) } else { kani::any() };
-            if m.n_io < 4 { m.io_reads[m.n_io] = (addr, w); m.n_io += 1; } else { m.overflow = true; }
-            w
-        };
-    m.push_log(Access { write: false, addr, data: w, privileged: ctx.privileged, strict: ctx.strict, track: ctx.track_access, io_effects: ctx.io_effects });
-    Ok(w)
+    let t = tab();
+    if !(ctx.track_access && ctx.io_effects) { t.untracked = true; }
+    if t.n_reads < 200 { t.n_reads += 1; }
+    // the pre-state word at this address (prescribed reads only; anything else is flagged)
+    let mut found = false; let mut priv_ok = false;
+    let mut pre: Word = W0;
+    let mut i = 0;
+    while i < NR {
+        if t.r[i].valid && t.r[i].addr == addr {
+            found = true; pre = t.r[i].pre; t.r[i].seen = true;
+            if t.r[i].privileged == ctx.privileged { priv_ok = true; }
+        }
+        i += 1;
+    }
+    if !found { t.extra_read = true; pre = kani::any(); } else if !priv_ok { t.bad_priv = true; }
+    // the current word: written earlier in this step, the PSR port, else the pre-state word
+    let mut cur = pre;
+    if addr < 0xFE00 {
+        let mut j = 0;
+        while j < NW { if t.w[j].valid && t.w[j].seen && t.w[j].addr == addr { cur = t.w[j].written; } j += 1; }
+    } else if addr == PSR_ADDR { cur = Word::new_init(s.psr.get()); }
+    Ok(cur)
 }
 /// Contract stub of `Simulator::write_mem` for the default internal-register map.
 pub(crate) fn contract_write_mem(s: &mut Simulator, addr: u16, data: Word, ctx: MemAccessCtx) -> Result<(), SimErr> {
     if !ctx.privileged && !user_range(addr) { return Err(SimErr::AccessViolation); }
-    let m = mm();
-    if addr >= 0xFE00 {
-        if ctx.strict && !data.is_init() { return Err(SimErr::StrictIOSetUninit); }
-        if addr == PSR_ADDR { s.psr.set(data.get()); }
-        else if addr == MCR_ADDR { s.mcr.store((data.get() as i16) < 0, std::sync::atomic::Ordering::Relaxed); }
-    } else {
-        if ctx.strict && !data.is_init() { return Err(SimErr::StrictMemSetUninit); }
-        m.store(addr, data);
+    if ctx.strict && !data.is_init() { return Err(if addr >= 0xFE00 { SimErr::StrictIOSetUninit } else { SimErr::StrictMemSetUninit }); }
+    if addr == PSR_ADDR { s.psr.set(data.get()); }
+    else if addr == MCR_ADDR { s.mcr.store((data.get() as i16) < 0, std::sync::atomic::Ordering::Relaxed); }
+    let t = tab();
+    if !(ctx.track_access && ctx.io_effects) { t.untracked = true; }
+    if t.n_writes < 200 { t.n_writes += 1; }
+    let mut found = false; let mut priv_ok = false;
+    let mut j = 0;
+    while j < NW {
+        let e = t.w[j];
+        if e.valid && e.addr == addr && (data == e.val || (e.alt && data == Word::new_init(e.val.get().wrapping_add(1)))) {
+            found = true; t.w[j].seen = true; t.w[j].written = data;
+            if e.privileged == ctx.privileged { priv_ok = true; }
+        }
+        j += 1;
     }
-    m.push_log(Access { write: true, addr, data, privileged: ctx.privileged, strict: ctx.strict, track: ctx.track_access, io_effects: ctx.io_effects });
+    if !found { t.extra_write = true; } else if !priv_ok { t.bad_priv = true; }
     Ok(())
 }
 
@@ -153,17 +183,16 @@ pub(crate) fn contract_poll(_d: &mut DeviceHandler) -> Option<device::Interrupt>
 }
 
 // =================================================================================================
-// The ISA reference (Appendix A of DESIGN.md).  Plain integers only.
+// The ISA reference (Appendix A of DESIGN.md).  Written from Patt & Patel App. A; shares no code
+// with sim.rs.  It runs on the pre-state and fills the access table.
 
 pub(crate) mod isa {
-    use super::{MiniMem, Word, Access};
+    use super::{Table, Word, RSlot, WSlot, NR, NW};
 
     #[derive(Clone, Copy, PartialEq, Eq)]
     pub(crate) enum Outcome { Done, Halt, ErrPrivilege, ErrIllegal, ErrAccess }
     #[derive(Clone, Copy)]
     pub(crate) struct St { pub r: [u16; 8], pub pc: u16, pub psr: u16, pub ssp: u16, pub depth: u64 }
-    #[derive(Clone, Copy, PartialEq, Eq)]
-    pub(crate) struct Acc { pub write: bool, pub addr: u16, pub data: u16, pub privileged: bool }
     pub(crate) struct Ref {
         pub st: St,
         pub out: Outcome,
@@ -175,9 +204,10 @@ pub(crate) mod isa {
         pub fault_pc: u16,
         /// the value an exception entry pushed as PC may be fault_pc or fault_pc + 1
         pub exc_entry: bool,
-        /// a corner the reference does not constrain was hit (stack push onto the PSR port)
+        /// a corner the reference does not constrain was hit
         pub unconstrained: bool,
-        pub acc: [Option<Acc>; 8], pub n_acc: usize,
+        /// the instruction word, when one was fetched
+        pub fetched: Option<u16>,
     }
     pub(crate) fn user(psr: u16) -> bool { (psr >> 15) != 0 }
     pub(crate) fn prio(psr: u16) -> u16 { (psr >> 8) & 7 }
@@ -188,39 +218,41 @@ pub(crate) mod isa {
     pub(crate) fn psr_port(d: u16) -> u16 { let cc = d & 7; let cc = if cc == 1 || cc == 2 || cc == 4 { cc } else { 2 }; (d & 0x8700) | cc }
     fn in_user_space(a: u16) -> bool { a >= 0x3000 && a < 0xFE00 }
 
-    pub(crate) struct Ctx<'a> { pub m: &'a mut MiniMem, pub over: [(u16, u16); 6], pub n_over: usize, pub ignore_privilege: bool }
+    pub(crate) struct Ctx<'a> { pub t: &'a mut Table, pub ignore_privilege: bool, pub rw: [Word; 8] }
     impl<'a> Ctx<'a> {
         fn allowed(&self, st: &St, a: u16) -> bool { !user(st.psr) || self.ignore_privilege || in_user_space(a) }
         fn privileged(&self, st: &St) -> bool { !user(st.psr) || self.ignore_privilege }
-        fn read(&mut self, r: &mut Ref, a: u16) -> u16 {
-            let v = if a < 0xFE00 {
-                let mut found = None;
-                let mut i = 6; while i > 0 { i -= 1; if i < self.n_over && self.over[i].0 == a { found = Some(self.over[i].1); break; } }
-                match found { Some(v) => v, None => self.m.initial(a).get() }
-            } else if a == 0xFFFC { r.st.psr }
-            else {
-                // device / MCR / mirror value: whatever the machine was given for its next I/O read
-                let k = self.m.io_cursor; self.m.io_cursor += 1;
-                if k < self.m.n_io && self.m.io_reads[k].0 == a { self.m.io_reads[k].1.get() } else { r.unconstrained = true; 0 }
-            };
+        /// pre-state word at `a`: what the previous step of a two-step obligation left there, the word
+        /// already chosen for the same address in an earlier slot, else an arbitrary word
+        fn pre_of(&mut self, slot: usize, a: u16) -> Word {
+            let mut j = 0;
+            while j < NW { if self.t.base[j].0 && self.t.base[j].1 == a && a < 0xFE00 { return self.t.base[j].2; } j += 1; }
+            let mut i = 0;
+            while i < NR { if i < slot && self.t.r[i].valid && self.t.r[i].addr == a { return self.t.r[i].pre; } i += 1; }
+            let w: Word = if a == 0xFFFE { Word::new_init((kani::any::<bool>() as u16) << 15) } else { kani::any() };
+            if self.t.all_init { kani::assume(w.is_init()); }
+            w
+        }
+        fn read(&mut self, r: &mut Ref, slot: usize, a: u16) -> u16 {
+            let pre = self.pre_of(slot, a);
             let p = self.privileged(&r.st);
-            push(r, Acc { write: false, addr: a, data: v, privileged: p });
+            self.t.r[slot] = RSlot { valid: true, addr: a, pre, privileged: p, seen: false };
+            let mut v = pre.get();
+            if a < 0xFE00 {
+                let mut j = 0;
+                while j < NW { if self.t.w[j].valid && self.t.w[j].addr == a { v = self.t.w[j].val.get(); } j += 1; }
+            } else if a == 0xFFFC { v = r.st.psr; }
             v
         }
-        fn write(&mut self, r: &mut Ref, a: u16, v: u16) {
+        fn write(&mut self, r: &mut Ref, slot: usize, a: u16, val: Word, alt: bool) {
             let p = self.privileged(&r.st);
-            push(r, Acc { write: true, addr: a, data: v, privileged: p });
-            if a < 0xFE00 {
-                let mut i = 0; let mut done = false;
-                while i < 6 { if i < self.n_over && self.over[i].0 == a { self.over[i].1 = v; done = true; } i += 1; }
-                if !done && self.n_over < 6 { self.over[self.n_over] = (a, v); self.n_over += 1; }
-            } else if a == 0xFFFC { r.st.psr = psr_port(v); }
+            self.t.w[slot] = WSlot { valid: true, addr: a, val, alt, privileged: p, seen: false, written: val };
+            if a == 0xFFFC { r.st.psr = psr_port(val.get()); }
         }
     }
-    fn push(r: &mut Ref, a: Acc) { if r.n_acc < 8 { r.acc[r.n_acc] = Some(a); } r.n_acc += 1; }
 
-    /// entry sequence shared by TRAP, interrupts and (real traps) exceptions
-    fn entry(r: &mut Ref, c: &mut Ctx, table_addr: u16, pushed_pc: u16, new_prio: Option<u16>) {
+    /// entry sequence shared by TRAP, interrupts and (real traps) exceptions; `rs` = first free read slot
+    fn entry(r: &mut Ref, c: &mut Ctx, rs: usize, table_addr: u16, pushed_pc: u16, new_prio: Option<u16>) {
         r.entered = true;
         let old_psr = r.st.psr;
         if user(r.st.psr) { let t = r.st.ssp; r.st.ssp = r.st.r[6]; r.st.r[6] = t; }
@@ -231,24 +263,24 @@ pub(crate) mod isa {
         // whose pushed PC (either of two values) is itself the vector-table entry read next
         if sp.wrapping_sub(1) == 0xFFFC || sp.wrapping_sub(2) == 0xFFFC { r.unconstrained = true; }
         if r.exc_entry && (sp.wrapping_sub(2) == table_addr) { r.unconstrained = true; }
-        c.write(r, sp.wrapping_sub(1), old_psr);
-        c.write(r, sp.wrapping_sub(2), pushed_pc);
+        c.write(r, 0, sp.wrapping_sub(1), Word::new_init(old_psr), false);
+        c.write(r, 1, sp.wrapping_sub(2), Word::new_init(pushed_pc), r.exc_entry);
         if let Some(p) = new_prio { r.st.psr = (r.st.psr & 0xF8FF) | ((p & 7) << 8); }
-        let target = c.read(r, table_addr);
+        let target = c.read(r, rs, table_addr);
         r.st.pc = target;
         r.st.depth += 1;
     }
-    fn exception(r: &mut Ref, c: &mut Ctx, real_traps: bool, vect: u16, out: Outcome, fault_pc: u16) {
+    fn exception(r: &mut Ref, c: &mut Ctx, rs: usize, real_traps: bool, vect: u16, out: Outcome, fault_pc: u16) {
         r.fault_pc = fault_pc;
-        if real_traps { r.exc_entry = true; entry(r, c, vect, fault_pc, None); }
+        if real_traps { r.exc_entry = true; entry(r, c, rs, vect, fault_pc, None); }
         else { r.out = out; }
     }
 
     /// One step of the LC-3 from `st0`; `pending` is the request the devices present at this boundary.
-    pub(crate) fn step(st0: St, m: &mut MiniMem, real_traps: bool, ignore_privilege: bool, pending: Option<(u8, u8)>) -> Ref {
+    pub(crate) fn step(st0: St, rw: [Word; 8], t: &mut Table, real_traps: bool, ignore_privilege: bool, pending: Option<(u8, u8)>) -> Ref {
         let mut r = Ref { st: st0, out: Outcome::Done, completed: false, entered: false, fault_pc: st0.pc, exc_entry: false,
-                          unconstrained: false, acc: [None; 8], n_acc: 0 };
-        let mut c = Ctx { m, over: [(0, 0); 6], n_over: 0, ignore_privilege };
+                          unconstrained: false, fetched: None };
+        let mut c = Ctx { t, ignore_privilege, rw };
         // 0. interrupt, only at the instruction boundary and only above the current priority
         if let Some((v, p)) = pending {
             let p = if p > 7 { 7 } else { p } as u16;
@@ -257,14 +289,15 @@ pub(crate) mod isa {
                 // them under virtual traps is outside what the reference constrains
                 if !real_traps && v <= 2 { r.unconstrained = true; return r; }
                 let pc = r.st.pc;
-                entry(&mut r, &mut c, 0x100 + v as u16, pc, Some(p));
+                entry(&mut r, &mut c, 0, 0x100 + v as u16, pc, Some(p));
                 return r;
             }
         }
         let pc0 = r.st.pc;
         // 1. fetch
-        if !c.allowed(&r.st, pc0) { exception(&mut r, &mut c, real_traps, 0x102, Outcome::ErrAccess, pc0); return r; }
-        let w = c.read(&mut r, pc0);
+        if !c.allowed(&r.st, pc0) { exception(&mut r, &mut c, 0, real_traps, 0x102, Outcome::ErrAccess, pc0); return r; }
+        let w = c.read(&mut r, 0, pc0);
+        r.fetched = Some(w);
         let op = w >> 12;
         // 2. decode
         let canonical = match op {
@@ -277,7 +310,7 @@ pub(crate) mod isa {
             0b1111 => (w & 0x0F00) == 0,
             _ => true,
         };
-        if !canonical { exception(&mut r, &mut c, real_traps, 0x101, Outcome::ErrIllegal, pc0); return r; }
+        if !canonical { exception(&mut r, &mut c, 1, real_traps, 0x101, Outcome::ErrIllegal, pc0); return r; }
         let pc1 = pc0.wrapping_add(1);
         r.st.pc = pc1;
         let dr = ((w >> 9) & 7) as usize;
@@ -293,25 +326,31 @@ pub(crate) mod isa {
             }
             0b1001 => { let v = !r.st.r[sr1]; r.st.r[dr] = v; r.st.psr = set_cc(r.st.psr, v); }
             0b1110 => { r.st.r[dr] = pco9; }
-            0b0010 | 0b1010 | 0b0110 => {
-                let mut ea = if op == 0b0110 { r.st.r[sr1].wrapping_add(sext(w & 0x3F, 6)) } else { pco9 };
-                if op == 0b1010 {
-                    if !c.allowed(&r.st, ea) { exception(&mut r, &mut c, real_traps, 0x102, Outcome::ErrAccess, pc0); return r; }
-                    ea = c.read(&mut r, ea);
-                }
-                if !c.allowed(&r.st, ea) { exception(&mut r, &mut c, real_traps, 0x102, Outcome::ErrAccess, pc0); return r; }
-                let v = c.read(&mut r, ea);
+            0b0010 | 0b0110 => {
+                let ea = if op == 0b0110 { r.st.r[sr1].wrapping_add(sext(w & 0x3F, 6)) } else { pco9 };
+                if !c.allowed(&r.st, ea) { exception(&mut r, &mut c, 1, real_traps, 0x102, Outcome::ErrAccess, pc0); return r; }
+                let v = c.read(&mut r, 1, ea);
                 r.st.r[dr] = v; r.st.psr = set_cc(r.st.psr, v);
             }
-            0b0011 | 0b1011 | 0b0111 => {
-                let mut ea = if op == 0b0111 { r.st.r[sr1].wrapping_add(sext(w & 0x3F, 6)) } else { pco9 };
-                if op == 0b1011 {
-                    if !c.allowed(&r.st, ea) { exception(&mut r, &mut c, real_traps, 0x102, Outcome::ErrAccess, pc0); return r; }
-                    ea = c.read(&mut r, ea);
-                }
-                if !c.allowed(&r.st, ea) { exception(&mut r, &mut c, real_traps, 0x102, Outcome::ErrAccess, pc0); return r; }
-                let v = r.st.r[dr];
-                c.write(&mut r, ea, v);
+            0b1010 => {
+                if !c.allowed(&r.st, pco9) { exception(&mut r, &mut c, 1, real_traps, 0x102, Outcome::ErrAccess, pc0); return r; }
+                let ea = c.read(&mut r, 1, pco9);
+                if !c.allowed(&r.st, ea) { exception(&mut r, &mut c, 2, real_traps, 0x102, Outcome::ErrAccess, pc0); return r; }
+                let v = c.read(&mut r, 2, ea);
+                r.st.r[dr] = v; r.st.psr = set_cc(r.st.psr, v);
+            }
+            0b0011 | 0b0111 => {
+                let ea = if op == 0b0111 { r.st.r[sr1].wrapping_add(sext(w & 0x3F, 6)) } else { pco9 };
+                if !c.allowed(&r.st, ea) { exception(&mut r, &mut c, 1, real_traps, 0x102, Outcome::ErrAccess, pc0); return r; }
+                let v = c.rw[dr];
+                c.write(&mut r, 0, ea, v, false);
+            }
+            0b1011 => {
+                if !c.allowed(&r.st, pco9) { exception(&mut r, &mut c, 1, real_traps, 0x102, Outcome::ErrAccess, pc0); return r; }
+                let ea = c.read(&mut r, 1, pco9);
+                if !c.allowed(&r.st, ea) { exception(&mut r, &mut c, 2, real_traps, 0x102, Outcome::ErrAccess, pc0); return r; }
+                let v = c.rw[dr];
+                c.write(&mut r, 0, ea, v, false);
             }
             0b0100 => {
                 let target = if w & 0x800 != 0 { pc1.wrapping_add(sext(w & 0x7FF, 11)) } else { r.st.r[sr1] };
@@ -321,13 +360,13 @@ pub(crate) mod isa {
             0b1111 => {
                 let v = w & 0xFF;
                 if !real_traps && v == 0x25 { r.out = Outcome::Halt; r.st.pc = pc0; return r; }
-                entry(&mut r, &mut c, v, pc1, None);
+                entry(&mut r, &mut c, 1, v, pc1, None);
             }
             0b1000 => {
-                if user(r.st.psr) && !ignore_privilege { exception(&mut r, &mut c, real_traps, 0x100, Outcome::ErrPrivilege, pc0); return r; }
+                if user(r.st.psr) && !ignore_privilege { exception(&mut r, &mut c, 1, real_traps, 0x100, Outcome::ErrPrivilege, pc0); return r; }
                 let sp = r.st.r[6];
-                let npc = c.read(&mut r, sp);
-                let npsr = c.read(&mut r, sp.wrapping_add(1));
+                let npc = c.read(&mut r, 1, sp);
+                let npsr = c.read(&mut r, 2, sp.wrapping_add(1));
                 r.st.r[6] = sp.wrapping_add(2);
                 r.st.pc = npc; r.st.psr = npsr;
                 if user(npsr) { let t = r.st.ssp; r.st.ssp = r.st.r[6]; r.st.r[6] = t; }
@@ -338,7 +377,6 @@ pub(crate) mod isa {
         r.completed = true;
         r
     }
-    pub(crate) fn _unused(_: Word, _: Access) {}
 }
 
 // =================================================================================================
@@ -359,6 +397,8 @@ fn is_strict_err(c: u8) -> bool { c >= 10 }
 
 fn eq8(a: &[u16; 8], b: &[u16; 8]) -> bool { let mut i = 0; let mut ok = true; while i < 8 { if a[i] != b[i] { ok = false; } i += 1; } ok }
 fn data(r: &[Word; 8]) -> [u16; 8] { [r[0].get(), r[1].get(), r[2].get(), r[3].get(), r[4].get(), r[5].get(), r[6].get(), r[7].get()] }
+fn st_of(sc: &Scalars) -> isa::St { isa::St { r: data(&sc.r), pc: sc.pc, psr: sc.psr, ssp: sc.ssp.get(), depth: sc.depth } }
+fn taken(pend: Option<(u8, u8)>, psr: u16) -> bool { match pend { Some((_, p)) => (if p > 7 { 7 } else { p }) as u16 > isa::prio(psr), None => false } }
 
 /// The opcode classes the step obligations are split into (one harness each, run in parallel).
 #[derive(Clone, Copy, PartialEq, Eq)]
@@ -377,7 +417,7 @@ fn class_of(w: u16) -> Class {
 
 /// C08 / C09 / C10 / C16 / C27 / C28: run the real `step_in` once from an arbitrary state and compare
 /// with `isa::step`.  `class` selects the fetched opcode class (Irq = a request above the current
-/// priority is pending; every other class has no such request).
+/// priority is pending; every other class has no such request; a step whose fetch is denied belongs to Bad).
 fn step_vs_isa(class: Class, real_traps: bool) {
     let fl = flags(false, real_traps, kani::any());
     let mut sim = any_sim(fl);
@@ -385,18 +425,21 @@ fn step_vs_isa(class: Class, real_traps: bool) {
     let pre = scalars(&sim);
     // devices: an arbitrary pending request
     let pend: Option<(u8, u8)> = kani::any();
-    unsafe { PENDING = pend; POLLS = 0; MM = MiniMem::new(); }
-    let taken = match pend { Some((_, p)) => (if p > 7 { 7 } else { p }) as u16 > isa::prio(pre.psr), None => false };
-    if class == Class::Irq { kani::assume(taken); } else {
-        kani::assume(!taken);
-        // pre-seed the fetched word so the class can be selected
-        let w = mm().initial(pre.pc);
-        kani::assume(class_of(w.get()) == class);
+    unsafe { PENDING = pend; POLLS = 0; TAB = Table::new(); }
+    // ---- the reference, on the pre-state; fills the access table
+    let rf = isa::step(st_of(&pre), pre.r, tab(), real_traps, fl.ignore_privilege, pend);
+    let is_irq = taken(pend, pre.psr);
+    if class == Class::Irq { kani::assume(is_irq); } else {
+        kani::assume(!is_irq);
+        let c = match rf.fetched { Some(w) => class_of(w), None => Class::Bad };
+        kani::assume(c == class);
     }
+    if rf.unconstrained { return; }
     // a cell of the real 64K array must never be touched behind the access functions' back
     let probe: u16 = kani::any();
     let cell0 = sim.mem[probe];
 
+    // ---- the real step
     let res = sim.step_in();
     let got = match &res { Ok(()) => Got::Ok, Err(e) => Got::Err(err_code(e)) };
     let post = scalars(&sim);
@@ -405,20 +448,11 @@ fn step_vs_isa(class: Class, real_traps: bool) {
     assert!(sim.mem[probe] == cell0, "L2.frame: memory is touched only through read_mem/write_mem");
     assert!(unsafe { POLLS } == 1, "C10.poll: devices are polled exactly once per step");
 
-    // ---- the reference
-    let st0 = isa::St { r: data(&pre.r), pc: pre.pc, psr: pre.psr, ssp: pre.ssp.get(), depth: pre.depth };
-    let m = mm();
-    let real_log = m.log; let real_nlog = m.n_log;
-    let real_over = m.over; let real_nover = m.n_over;
-    assert!(!m.overflow && real_nlog <= 6, "L2.frame: at most six memory accesses per step");
-    let rf = isa::step(st0, m, real_traps, fl.ignore_privilege, pend);
-    if rf.unconstrained { return; }
     // vacuity guards: the outcomes this class is about must be reachable behind the assumptions above
-    let in_mem = pre.pc < 0xFE00; // (a word fetched from the I/O page is not constrained by the class split)
     let (exp_completed, exp_entered, exp_err) = (class != Class::Irq && class != Class::Bad, class == Class::Trap || class == Class::Irq || real_traps, !real_traps && class != Class::Irq);
-    kani::cover!(!exp_completed || (rf.completed && in_mem), "completed instruction reachable");
-    kani::cover!(!exp_entered || (rf.entered && in_mem), "entry sequence reachable");
-    kani::cover!(!exp_err || (!matches!(rf.out, isa::Outcome::Done) && in_mem), "halt or error outcome reachable");
+    kani::cover!(!exp_completed || rf.completed, "completed instruction reachable");
+    kani::cover!(!exp_entered || rf.entered, "entry sequence reachable");
+    kani::cover!(!exp_err || !matches!(rf.out, isa::Outcome::Done), "halt or error outcome reachable");
 
     // ---- outcome
     match rf.out {
@@ -443,39 +477,14 @@ fn step_vs_isa(class: Class, real_traps: bool) {
     // ---- instruction counter
     if rf.completed { assert!(post.icount == pre.icount.wrapping_add(1), "C13.count: a completed instruction counts once"); }
     else if !rf.entered { assert!(post.icount == pre.icount, "C13.count: a halted or failed step does not count"); }
-    // ---- memory and I/O accesses: same set of (kind, address, privilege), same data for writes
-    let mut i = 0;
-    while i < 8 {
-        if i < real_nlog {
-            let a = real_log[i].unwrap();
-            assert!(a.track && a.io_effects, "C28.ctx: program accesses are tracked and effectful");
-            let mut found = false;
-            let mut j = 0;
-            while j < 8 {
-                if j < rf.n_acc { let b = rf.acc[j].unwrap();
-                    let same_data = a.data.get() == b.data || (rf.exc_entry && a.write && b.data == rf.fault_pc && a.data.get() == rf.fault_pc.wrapping_add(1));
-                    if a.write == b.write && a.addr == b.addr && a.privileged == b.privileged && (!a.write || same_data) { found = true; } }
-                j += 1;
-            }
-            assert!(found, "C08.access: every access made is one the ISA prescribes (address, direction, privilege, data)");
-        }
-        i += 1;
-    }
-    let mut j = 0;
-    while j < 8 {
-        if j < rf.n_acc {
-            let b = rf.acc[j].unwrap();
-            let mut found = false;
-            let mut i = 0;
-            while i < 8 {
-                if i < real_nlog { let a = real_log[i].unwrap(); if a.write == b.write && a.addr == b.addr { found = true; } }
-                i += 1;
-            }
-            assert!(found, "C08.access: every access the ISA prescribes is made");
-        }
-        j += 1;
-    }
-    let _ = (real_over, real_nover);
+    // ---- memory and I/O accesses: exactly the prescribed set (address, direction, privilege, data)
+    let t = tab();
+    assert!(!t.extra_read, "C08.access: every read made is one the ISA prescribes (C09: none outside user space in user mode)");
+    assert!(!t.extra_write, "C08.access: every write made is one the ISA prescribes (address and data)");
+    assert!(!t.bad_priv, "C09.access: every access carries the privilege of the mode it is made in");
+    assert!(!t.untracked, "C28.ctx: program accesses are tracked and effectful");
+    assert!(t.all_seen(), "C08.access: every access the ISA prescribes is made");
+    assert!(t.n_reads <= 4 && t.n_writes <= 2, "L2.frame: at most four reads and two writes per step");
 }
 
 macro_rules! step_harness {
@@ -750,51 +759,25 @@ l1_harness!(l1_write_empty_map, l1_write, Map::Empty, 9);
 l1_harness!(l1_read_default_map, l1_read, Map::Default, 17);
 l1_harness!(l1_write_default_map, l1_write, Map::Default, 17);
 
-// =================================================================================================
-// Relational obligations: two runs of the real step from the same state.
 
-/// Replays, in the second run of a relational harness, the device values the first run was given.
-static mut IO_REPLAY: Option<([(u16, Word); 4], usize)> = None;
-static mut IO_REPLAY_POS: usize = 0;
-pub(crate) fn contract_read_mem_replay(s: &mut Simulator, addr: u16, ctx: MemAccessCtx) -> Result<Word, SimErr> {
-    if !ctx.privileged && !user_range(addr) { return Err(SimErr::AccessViolation); }
-    let m = mm();
-    let w = if addr < 0xFE00 { m.current(addr) }
-        else if addr == PSR_ADDR { Word::new_init(s.psr.get()) }
-        else {
-            let fresh: Word = if addr == MCR_ADDR { Word::new_init((kani::any::<bool>() as u16) << 15) } else { kani::any() };
-            if unsafe { MM_ALL_INIT } { kani::assume(fresh.is_init()); }
-            let w = unsafe { match IO_REPLAY { Some((vals, n)) if IO_REPLAY_POS < n && vals[IO_REPLAY_POS].0 == addr => { let w = vals[IO_REPLAY_POS].1; IO_REPLAY_POS += 1; w }, _ => fresh } };
-            if m.n_io < 4 { m.io_reads[m.n_io] = (addr, w); m.n_io += 1; } else { m.overflow = true; }
-            w
-        };
-    m.push_log(Access { write: false, addr, data: w, privileged: ctx.privileged, strict: ctx.strict, track: ctx.track_access, io_effects: ctx.io_effects });
-    Ok(w)
+// =================================================================================================
+// Relational obligations: two runs of the real step from the same state over the same memory
+// function (the access table filled by the reference; the first run is checked against it by the
+// step_* obligations, so the table is exactly what a lenient run touches).
+
+#[derive(Clone, Copy)]
+struct Effects { r_seen: [bool; NR], w_seen: [bool; NW], w_written: [Word; NW], clean: bool }
+fn effects(t: &Table) -> Effects {
+    let mut e = Effects { r_seen: [false; NR], w_seen: [false; NW], w_written: [W0; NW], clean: t.clean() };
+    let mut i = 0; while i < NR { e.r_seen[i] = t.r[i].valid && t.r[i].seen; i += 1; }
+    let mut j = 0; while j < NW { e.w_seen[j] = t.w[j].valid && t.w[j].seen; e.w_written[j] = t.w[j].written; j += 1; }
+    e
 }
-/// second run starts from the same pre-state memory as the first
-fn rewind_memory(first: &MiniMem) {
-    unsafe {
-        MM = MiniMem::new();
-        MM.init = first.init; MM.n_init = first.n_init;
-        IO_REPLAY = Some((first.io_reads, first.n_io)); IO_REPLAY_POS = 0;
-    }
-}
-/// the two runs made the same writes and the same device accesses (what C12/C14 call memory and device effects)
-fn same_effects(a: &MiniMem, b: &MiniMem) -> bool {
-    let eff = |x: &Access| x.write || x.addr >= 0xFE00;
-    let mut ok = true;
-    let mut i = 0;
-    while i < 8 {
-        if i < a.n_log { let x = a.log[i].unwrap(); if eff(&x) {
-            let mut f = false; let mut j = 0;
-            while j < 8 { if j < b.n_log { let y = b.log[j].unwrap(); if y.write == x.write && y.addr == x.addr && (!x.write || y.data == x.data) { f = true; } } j += 1; }
-            if !f { ok = false; } } }
-        if i < b.n_log { let x = b.log[i].unwrap(); if eff(&x) {
-            let mut f = false; let mut j = 0;
-            while j < 8 { if j < a.n_log { let y = a.log[j].unwrap(); if y.write == x.write && y.addr == x.addr && (!x.write || y.data == x.data) { f = true; } } j += 1; }
-            if !f { ok = false; } } }
-        i += 1;
-    }
+/// the two runs made the same writes (address and word) and the same reads (what C12/C14 call memory and device effects)
+fn same_effects(a: &Effects, b: &Effects) -> bool {
+    let mut ok = a.clean && b.clean;
+    let mut i = 0; while i < NR { if a.r_seen[i] != b.r_seen[i] { ok = false; } i += 1; }
+    let mut j = 0; while j < NW { if a.w_seen[j] != b.w_seen[j] || (a.w_seen[j] && a.w_written[j] != b.w_written[j]) { ok = false; } j += 1; }
     ok
 }
 fn same_scalars(a: &Scalars, b: &Scalars) -> bool {
@@ -823,45 +806,45 @@ fn strict_vs_lenient(real_traps: bool, all_init: bool) {
         while i < 8 { kani::assume(sc.r[i].is_init()); i += 1; }
         kani::assume(sc.ssp.is_init());
     }
-    unsafe { PENDING = pend; MM = MiniMem::new(); MM_ALL_INIT = all_init; IO_REPLAY = None; }
+    unsafe { PENDING = pend; TAB = Table::new(); TAB.all_init = all_init; }
+    let rf = isa::step(st_of(&sc), sc.r, tab(), real_traps, ign, pend);
+    if rf.unconstrained { return; }
     let mut a = sim_from(sc, flags(false, real_traps, ign));
     a.alloca = alloca.clone(); a.prefetch = false;
     let ra = a.step_in();
-    let ma = *mm();
-    rewind_memory(&ma);
+    let ea = effects(tab());
+    tab().rewind();
     let mut b = sim_from(sc, flags(true, real_traps, ign));
     b.alloca = alloca; b.prefetch = false;
     // The strict next-PC check peeks at the memory array directly (initialization state only).  On a machine
     // whose memory is all initialized that cell is initialized too; the cell is the lenient run's next PC.
     if all_init { kani::assume(b.mem[scalars(&a).pc].is_init()); }
     let rb = b.step_in();
-    let mb = *mm();
-    assert!(!ma.overflow && !mb.overflow, "L2.frame: access log within capacity");
+    let eb = effects(tab());
     let (sa, sb) = (scalars(&a), scalars(&b));
     kani::cover!(rb.is_ok(), "strict step succeeding reachable");
     kani::cover!(all_init || matches!(&rb, Err(e) if is_strict_err(err_code(e))), "strict error reachable");
+    assert!(ea.clean, "L2.frame: the lenient run touches exactly what the ISA prescribes");
     match (&ra, &rb) {
         (_, Ok(())) => {
             assert!(ra.is_ok(), "C14.same: a step strict mode accepts is accepted without it");
             assert!(same_scalars(&sa, &sb), "C14.same: registers, PC, PSR, saved SP, frame depth and instruction count evolve exactly as without strict mode");
-            assert!(same_effects(&ma, &mb), "C14.same: memory writes and device accesses are exactly those made without strict mode");
+            assert!(same_effects(&ea, &eb), "C14.same: memory writes and memory/device reads are exactly those made without strict mode");
         }
         (Ok(()), Err(e)) => assert!(is_strict_err(err_code(e)), "C14.kind: a step that fails only under strict mode fails with a strict (uninitialized-value) error"),
-        (Err(_), Err(_)) => {}
+        (Err(ea_), Err(eb_)) => assert!(is_strict_err(err_code(eb_)) || err_code(ea_) == err_code(eb_), "C14.kind: a failing step fails the same way, or with a strict error"),
     }
     if all_init {
         if let Err(e) = &rb { assert!(!is_strict_err(err_code(e)), "C14.init: with all registers and memory initialized strict mode reports no strict error"); }
     }
 }
-/// when set, the symbolic memory hands out fully initialized words only ("a machine whose memory is all initialized")
-pub(crate) static mut MM_ALL_INIT: bool = false;
 
 macro_rules! two_run_harness {
     ($name:ident, $body:expr) => {
         #[kani::proof]
         #[kani::stub(std::hash::RandomState::new, stub_random_state)]
         #[kani::stub(<DeviceHandler as ExternalDevice>::poll_interrupt, contract_poll)]
-        #[kani::stub(Simulator::read_mem, contract_read_mem_replay)]
+        #[kani::stub(Simulator::read_mem, contract_read_mem)]
         #[kani::stub(Simulator::write_mem, contract_write_mem)]
         #[kani::unwind(9)]
         fn $name() { $body }
@@ -880,27 +863,26 @@ fn real_vs_virtual() {
     let sc = any_scalars();
     kani::assume(sc.depth < u64::MAX);
     let pend: Option<(u8, u8)> = kani::any();
-    unsafe { PENDING = pend; MM = MiniMem::new(); MM_ALL_INIT = false; IO_REPLAY = None; }
+    unsafe { PENDING = pend; TAB = Table::new(); }
+    let rf = isa::step(st_of(&sc), sc.r, tab(), false, ign, pend);
+    if rf.unconstrained { return; }
     let mut a = sim_from(sc, flags(false, false, ign));
     a.prefetch = false;
     let ra = a.step_in();
-    let ma = *mm();
-    let taken = match pend { Some((_, p)) => (if p > 7 { 7 } else { p }) as u16 > isa::prio(sc.psr), None => false };
-    let halted_or_failed = ra.is_err() || (scalars(&a).icount == sc.icount && !taken);
-    rewind_memory(&ma);
+    let ea = effects(tab());
+    let is_irq = taken(pend, sc.psr);
+    let halted_or_failed = ra.is_err() || (scalars(&a).icount == sc.icount && !is_irq);
+    tab().rewind();
     let mut b = sim_from(sc, flags(false, true, ign));
     b.prefetch = false;
     let rb = b.step_in();
-    let mb = *mm();
+    let eb = effects(tab());
     kani::cover!(!halted_or_failed, "ordinary step reachable");
+    kani::cover!(!halted_or_failed && is_irq, "interrupt entry reachable");
     if !halted_or_failed && ra.is_ok() {
-        // an interrupt taken from the exception part of the vector table (x00..x02) is outside C12
-        let low_vec = match pend { Some((v, p)) => v <= 2 && (if p > 7 { 7 } else { p }) as u16 > isa::prio(sc.psr), None => false };
-        if !low_vec {
-            assert!(rb.is_ok(), "C12.same: an ordinary step also succeeds under real traps");
-            assert!(same_scalars(&scalars(&a), &scalars(&b)), "C12.same: same registers, PC, PSR, saved SP, depth, count");
-            assert!(same_effects(&ma, &mb), "C12.same: same memory writes and device accesses");
-        }
+        assert!(rb.is_ok(), "C12.same: an ordinary step also succeeds under real traps");
+        assert!(same_scalars(&scalars(&a), &scalars(&b)), "C12.same: same registers, PC, PSR, saved SP, depth, count");
+        assert!(same_effects(&ea, &eb), "C12.same: same memory writes and memory/device reads");
     }
 }
 two_run_harness!(real_vs_virtual_step, real_vs_virtual());
@@ -916,36 +898,35 @@ fn entry_then_rti() {
     let (v, p): (u8, u8) = (kani::any(), kani::any());
     kani::assume((if p > 7 { 7 } else { p }) as u16 > isa::prio(sc.psr));
     kani::assume(real || v > 2);
-    // supervisor stack lies in memory (not in the device page), and is not the vector entry itself
+    // supervisor stack lies in memory (not in the device page)
     let sp = if isa::user(sc.psr) { sc.ssp.get() } else { sc.r[6].get() };
     kani::assume(sp.wrapping_sub(1) < 0xFE00 && sp.wrapping_sub(2) < 0xFE00);
-    unsafe { PENDING = Some((v, p)); MM = MiniMem::new(); MM_ALL_INIT = false; IO_REPLAY = None; }
+    unsafe { PENDING = Some((v, p)); TAB = Table::new(); }
+    let rf1 = isa::step(st_of(&sc), sc.r, tab(), real, ign, Some((v, p)));
+    if rf1.unconstrained { return; }
     let mut s = sim_from(sc, flags(false, real, ign));
     s.prefetch = false;
     let r1 = s.step_in();
-    assert!(r1.is_ok(), "C10.entry: taking an interrupt succeeds");
+    assert!(r1.is_ok() && tab().clean() && tab().all_seen(), "C10.entry: taking an interrupt succeeds and pushes PSR and PC");
     let mid = scalars(&s);
     assert!(mid.psr & 0x8000 == 0 && (mid.psr >> 8) & 7 == (if p > 7 { 7 } else { p }) as u16, "C10.entry: supervisor mode at the request's priority");
     assert!(mid.depth == sc.depth + 1, "C27.entry: one frame deeper");
-    // the handler consists of a single RTI
-    let h = mm().current(mid.pc);
-    kani::assume(h.get() == 0x8000 && mid.pc < 0xFE00 && mid.pc != sp.wrapping_sub(1) && mid.pc != sp.wrapping_sub(2));
-    unsafe { PENDING = None; }
+    let pushed = [tab().w[0], tab().w[1]];
+    // ---- second step: the handler consists of a single RTI; its pre-state memory holds the two pushed words
+    unsafe { PENDING = None; TAB = Table::new(); TAB.base = [(true, pushed[0].addr, pushed[0].written), (true, pushed[1].addr, pushed[1].written)]; }
+    let rf2 = isa::step(st_of(&mid), mid.r, tab(), real, ign, None);
+    kani::assume(rf2.fetched == Some(0x8000) && mid.pc < 0xFE00 && mid.pc != sp.wrapping_sub(1) && mid.pc != sp.wrapping_sub(2));
     let r2 = s.step_in();
     let end = scalars(&s);
     kani::cover!(r2.is_ok(), "return from the handler reachable");
-    assert!(r2.is_ok(), "C10.rti: RTI in the handler succeeds");
+    assert!(r2.is_ok() && tab().clean(), "C10.rti: RTI in the handler succeeds");
     assert!(end.pc == sc.pc && end.psr == sc.psr, "C10.transparent: PC and PSR (privilege, priority, condition codes) restored");
     let mut i = 0;
     while i < 8 { assert!(end.r[i].get() == sc.r[i].get(), "C10.transparent: R0-R7 restored (incl. the stack pointer)"); i += 1; }
     assert!(end.ssp.get() == sc.ssp.get() && end.depth == sc.depth, "C10.transparent: saved stack pointer and frame depth restored");
-    // memory: only the two pushed words were written
-    let m = mm();
-    let mut i = 0;
-    while i < 8 {
-        if i < m.n_log { let a = m.log[i].unwrap(); if a.write { assert!(a.addr == sp.wrapping_sub(1) || a.addr == sp.wrapping_sub(2), "C10.transparent: only the supervisor stack is written"); } }
-        i += 1;
-    }
+    // memory: only the two pushed words were written (step 1: exactly the table's two writes; step 2: none)
+    assert!(tab().n_writes == 0, "C10.transparent: only the supervisor stack is written");
+    assert!(pushed[0].addr == sp.wrapping_sub(1) && pushed[1].addr == sp.wrapping_sub(2), "C10.entry: PSR and PC are pushed on the supervisor stack");
 }
 #[kani::proof]
 #[kani::stub(std::hash::RandomState::new, stub_random_state)]
@@ -1148,3 +1129,4 @@ fn mmap_internal_empty() { mmap_contract(Map::Empty) }
 #[kani::stub(std::hash::RandomState::new, stub_random_state)]
 #[kani::unwind(17)]
 fn mmap_internal_default() { mmap_contract(Map::Default) }
+
